@@ -1,6 +1,8 @@
 package keeper
 
 import (
+	"time"
+
 	"github.com/cosmos/cosmos-sdk/codec"
 	sdk "github.com/cosmos/cosmos-sdk/types"
 	sdkerrors "github.com/cosmos/cosmos-sdk/types/errors"
@@ -24,10 +26,12 @@ func NewGovMigrate(govKeeper types.GovKeeper, accountKeeper govtypes.AccountKeep
 }
 
 func (m *GovMigrate) Validate(ctx sdk.Context, _ codec.BinaryCodec, from sdk.AccAddress, to common.Address) error {
-	if err := m.govKeeper.IteratorInactiveProposal(ctx, ctx.BlockTime(), m.DepositPeriodCallback(ctx, from, to)); err != nil {
+	// a proposal stays in its queue until it ends, so the open proposals are the ones ending after the current
+	// block time: scan the whole queue (zero time), not only the entries that have already ended
+	if err := m.govKeeper.IteratorInactiveProposal(ctx, time.Time{}, m.DepositPeriodCallback(ctx, from, to)); err != nil {
 		return err
 	}
-	return m.govKeeper.IteratorActiveProposal(ctx, ctx.BlockTime(), m.VotePeriodCallback(ctx, from, to))
+	return m.govKeeper.IteratorActiveProposal(ctx, time.Time{}, m.VotePeriodCallback(ctx, from, to))
 }
 
 func (m *GovMigrate) Execute(_ sdk.Context, _ codec.BinaryCodec, _ sdk.AccAddress, _ common.Address) error {
